@@ -898,6 +898,50 @@ pub fn c13(tier: &str, seed: u64, ops: Option<&[String]>) -> Report {
         v3c.push(crate::pgen::gen_v3(&mut rng, 0, crate::pgen::Sizes { big: i % 90 == 0 }));
         v5c.push(crate::pgen::gen_v5(&mut rng, 0, crate::pgen::Sizes { big: i % 90 == 0 }, [0u8, 1, 2, 3, 4][i % 5], i));
     }
+    if ops.is_none() {
+        // LARGE CONNECTs: the verdict on a foreign CONNECT must not depend on how big it claims to be — v5 CONNECTs
+        // beyond the largest possible v3 CONNECT (327,697 bytes) and up to a few MiB, and the largest v3 CONNECTs
+        use std::sync::Arc;
+        let big_v5 = |total: usize| -> v5::Packet {
+            let mut ups = Vec::new();
+            let mut left = total;
+            while left > 0 {
+                let take = left.min(60_000);
+                ups.push(v5::UserProperty { name: Arc::new("k".into()), value: Arc::new("v".repeat(take)) });
+                left -= take;
+            }
+            v5::Packet::Connect(v5::Connect {
+                protocol: Protocol::V500,
+                clean_start: true,
+                keep_alive: 10,
+                properties: v5::ConnectProperties { user_properties: ups, ..Default::default() },
+                client_id: Arc::new("c".into()),
+                last_will: None,
+                username: None,
+                password: None,
+            })
+        };
+        let mut totals = vec![70_000usize, 200_000, 327_000, 327_600, 327_680, 327_700, 400_000, 1 << 20, (5 << 20) + 3];
+        if tier == "thorough" {
+            totals.extend([100_000, 131_072, 262_144, 327_690, 524_288, 2 << 20, 16 << 20]);
+        }
+        for t in totals {
+            v5c.push(big_v5(t));
+        }
+        for protocol in [Protocol::V310, Protocol::V311] {
+            for l in [65_535usize, 65_534, 40_000] {
+                v3c.push(v3::Packet::Connect(v3::Connect {
+                    protocol,
+                    clean_session: false,
+                    keep_alive: 1,
+                    client_id: Arc::new("c".repeat(l)),
+                    last_will: Some(v3::LastWill { qos: mqtt_proto::QoS::Level1, retain: true, topic_name: mqtt_proto::TopicName::try_from("t".repeat(l)).unwrap(), message: bytes::Bytes::from(vec![7u8; l]) }),
+                    username: Some(Arc::new("u".repeat(l))),
+                    password: Some(bytes::Bytes::from(vec![b'p'; l])),
+                }));
+            }
+        }
+    }
     for p in &v5c {
         rep.cases += 1;
         let input = format!("enc v5 {}", crate::v5text::show(p));
